@@ -249,22 +249,66 @@ func (h *harness) sendAfter() *vh.Failure {
 
 // ---- running a case
 
-func runChan(c chanCase) *vh.Failure {
-	// the concatenated bodies, parsed once at package level: tells whether a huge
-	// length will be requested (allocation is measured then) and keeps a request
-	// above 2^27 away from a tree that would allocate it
-	var bodies []byte
-	for _, p := range c.Packets {
-		bodies = append(bodies, p.Data...)
+// readerPackets splits wire bytes the way Packet.ReadFrom does: header, then
+// length-8 bytes of body. It stops at a header that announces less than a header or
+// more than there is.
+func readerPackets(wire []byte) []pktDesc {
+	var out []pktDesc
+	for len(wire) >= 8 {
+		p := pktDesc{Type: wire[0], Status: wire[1], Length: uint16(wire[2])<<8 | uint16(wire[3]), Channel: uint16(wire[4])<<8 | uint16(wire[5]), Nr: wire[6], Window: wire[7]}
+		if p.Length < 8 || int(p.Length) > len(wire) {
+			break
+		}
+		p.Data = wire[8:p.Length]
+		out = append(out, p)
+		wire = wire[p.Length:]
 	}
-	bodies = append(bodies, c.Raw...)
-	pre := parseStream(bodies, treeUnsafe())
-	if pre.Panic != nil && pre.Panic.Guard != nil {
+	return out
+}
+
+// prescreen runs the case through the channel simulator (package level, real
+// PacketQueue): it tells whether a huge length will be requested from the queue
+// (allocation is measured then) and keeps requests above 2^27 away from a tree that
+// would allocate them.
+func prescreen(c chanCase) (maxN int, excluded bool) {
+	ps := c.Packets
+	if c.Level == "read" {
+		ps = readerPackets(c.wire())
+	}
+	s := &sim{guard: treeUnsafe()}
+	for _, p := range ps {
+		if c.Level == "read" && p.Channel != 0 || p.Length == 8 {
+			continue
+		}
+		if pc := s.packet(p.Data, p.Status&1 != 0); pc != nil {
+			return s.res.MaxN, pc.Guard != nil
+		}
+	}
+	return s.res.MaxN, false
+}
+
+var inAllocSite bool
+
+func runChan(c chanCase) *vh.Failure {
+	f := runChanOnce(c)
+	if f != nil && !inAllocSite && (f.Class == "C10/alloc-disproportionate-channel" || f.Class == "C10/alloc-disproportionate-reader") {
+		inAllocSite = true
+		site := allocSite(func() { runChanOnce(c) })
+		inAllocSite = false
+		f.Class = "C10/alloc-disproportionate-" + site
+		f.Msg += "; allocating function: " + site
+	}
+	return f
+}
+
+func runChanOnce(c chanCase) *vh.Failure {
+	maxN, excluded := prescreen(c)
+	if excluded {
 		vh.Excluded(classAllocBytes)
 		vh.Label("excluded:request-above-2^27")
 		return nil
 	}
-	big := c.Big || pre.MaxN >= 1<<16
+	big := c.Big || maxN >= 1<<16
 
 	h := newHarness()
 	defer h.close()
@@ -408,15 +452,19 @@ func runRead(h *harness, c chanCase, big bool, step *atomic.Value) *vh.Failure {
 	if big && delta > allocBound(len(wire)) {
 		return vh.Failf("C10/alloc-disproportionate-reader", "reading %d bytes allocated %d bytes (bound %d); head: %s", len(wire), delta, allocBound(len(wire)), hexHead(wire, 24))
 	}
+	// the request comes first: while the reader waits for input nothing else
+	// allocates, so the allocation of the request can be measured
+	step.Store("SendPackage")
+	if f := h.sendAfter(); f != nil {
+		return f
+	}
 	if c.EOF && !readerExit {
+		// the transport ends: the reader sees io.EOF at a header boundary or inside
+		// a body (its spinning there is bounded by the read timeout: C14)
 		step.Store("EOF")
 		_, _, given, _ := h.pipe.Stats()
 		h.pipe.FailAfter(given, io.EOF)
 		time.Sleep(300 * time.Microsecond)
-	}
-	step.Store("SendPackage")
-	if f := h.sendAfter(); f != nil {
-		return f
 	}
 	step.Store("stopping the reader")
 	h.cancel()
@@ -631,11 +679,11 @@ func genChan(level string) func(rt *rapid.T) chanCase {
 // TestWritePacket: packet sequences into Channel.WritePacket of channel 0, then one
 // small request.
 func TestWritePacket(t *testing.T) {
-	checkRounds(t, "TestWritePacket", vh.N(5000, 250000), genChan("write"), runChan)
+	checkRounds(t, "TestWritePacket", vh.N(12000, 250000), genChan("write"), runChan)
 }
 
 // TestReadFrom: byte streams through the real reader (Conn.ReadFrom run by the harness
 // under recover), then one small request.
 func TestReadFrom(t *testing.T) {
-	checkRounds(t, "TestReadFrom", vh.N(2500, 120000), genChan("read"), runChan)
+	checkRounds(t, "TestReadFrom", vh.N(6000, 120000), genChan("read"), runChan)
 }
